@@ -186,6 +186,7 @@ theorem Tested.valid_nil {r : RuleM} {t : RuleTestR} (h : Tested r t) (hv : t.is
 theorem test_tested (r : RuleM) (doc copy : PyVal) (t : RuleTestR) (copy' : PyVal)
     (h : r.test doc copy = .ok (t, copy')) : Tested r t := by
   unfold RuleM.test at h
+  rw [castSource_eq] at h
   simp only [bind, Except.bind, pure, Except.pure] at h
   split at h
   · cases h
